@@ -261,8 +261,8 @@ func (x *runner) single(in input) {
 	}
 	key, _ := json.Marshal(in)
 	coq := coqCase(in, ob)
-	if in.Req.Variant == "cors-preflight" {
-		coq = "" // answered by the cors middleware of the mounted router: outside the model, oracle only
+	if in.Req.Method == "OPTIONS" && in.Req.Headers["Access-Control-Request-Method"] != "" {
+		coq = "" // a preflight: answered by the cors middleware of the mounted router, outside the model; oracle only
 	}
 	r.Case(coq, in, string(key), nontrivial)
 }
@@ -361,9 +361,17 @@ func (x *runner) routeRequests(full string, registered map[string]bool, thorough
 			if strings.HasSuffix(full, "/transactions") {
 				x.both(reqIn{Method: m, Target: target, Body: scriptBody, WF: wf, Variant: "script-body"})
 			}
-			if m == "OPTIONS" {
-				x.both(reqIn{Method: m, Target: target, Body: body, Variant: "cors-preflight",
-					Headers: map[string]string{"Origin": "http://o.test", "Access-Control-Request-Method": "POST"}})
+			// CORS headers on EVERY method: a gate that lets "preflights" through must not take a POST for one
+			for _, hv := range []struct {
+				name string
+				h    map[string]string
+			}{
+				{"cors-origin+request-method-POST", map[string]string{"Origin": "https://x.example", "Access-Control-Request-Method": "POST"}},
+				{"cors-origin+request-method-DELETE", map[string]string{"Origin": "https://x.example", "Access-Control-Request-Method": "DELETE"}},
+				{"cors-origin-only", map[string]string{"Origin": "https://x.example"}},
+				{"cors-request-method-only", map[string]string{"Access-Control-Request-Method": "POST"}},
+			} {
+				x.both(reqIn{Method: m, Target: target, Body: body, WF: wf, Variant: hv.name, Headers: hv.h})
 			}
 		}
 	}
@@ -424,7 +432,10 @@ func (x *runner) randomRequest(g *vx.Rng, fulls []string, vocab []string) reqIn 
 			case 2:
 				rq.Headers["Content-Type"] = pickS(g, []string{"application/json", "text/plain", "application/x-www-form-urlencoded"})
 			case 3:
-				rq.Headers["Origin"] = "http://o.test"
+				rq.Headers["Origin"] = "https://x.example"
+				if g.Bool() {
+					rq.Headers["Access-Control-Request-Method"] = pickS(g, []string{"POST", "DELETE", "GET"})
+				}
 			case 4:
 				rq.Headers["Authorization"] = "Bearer x"
 			}
@@ -438,7 +449,7 @@ func main() {
 	r.Cases("From FL Require Import Router.Model Router.RoutesGen.\nDefinition check_case := check_case_with gen_config.\n", "case", 400)
 	r.Sum.Rule = "every (method, pattern) chi.Walk reports for the real api.NewRouter, united with the translator's table, instantiated with " +
 		"4 parameter sets x 15 methods (9 of chi, unknown, lower/mixed case) x variants (method-override headers and query, trailing slash, " +
-		"bulk / garbage / script bodies, CORS preflight), then seeded random paths/methods/bodies/headers; each request is served by the " +
+		"bulk / garbage / script bodies, CORS Origin / Access-Control-Request-Method headers on every method), then seeded random paths/methods/bodies/headers; each request is served by the " +
 		"router built with readOnly=false and by the one built with readOnly=true; non-trivial = without the flag the backend records a " +
 		"write for this request; distinct by the JSON of (flag, request)"
 	r.Sum.Samples = []any{} // never null in summary.json, also when the router cannot even be built
